@@ -405,8 +405,6 @@ def run(tier: str, seed: int) -> Report:
 def replay(path: str) -> int:
     quiet_gallia_logging()
     data = json.loads(open(path).read())
-    ex = _export("as-is")
-    patterns = _patterns_for("quick", ex["table"])
     cmds = L.walk_commands()
     bad = 0
     for v in data["violations"]:
